@@ -130,7 +130,7 @@ fn text_cases(ctx: &mut Ctx, lines: &[String], crlf: bool, final_term: bool, rou
         t.dedup();
         std::iter::once(None).chain(t.into_iter().map(Some)).collect()
     };
-    let kinds: &[&str] = if big { &["LineLender<Cursor>", "ZstdLineLender", "GzipLineLender"] } else { &["LineLender<Cursor>", "LineLender<File>", "ZstdLineLender", "GzipLineLender"] };
+    let kinds: &[&str] = if big { &["LineLender<Cursor>", "ZstdLineLender", "GzipLineLender"] } else { &["LineLender<Cursor>", "LineLender<File>", "ZstdLineLender", "GzipLineLender", "ZstdLineLender<File>", "GzipLineLender<File>"] };
     for &kind in kinds {
         for &take in &takes {
             if big && take.is_some_and(|t| t != n && t != 1) {
@@ -144,13 +144,20 @@ fn text_cases(ctx: &mut Ctx, lines: &[String], crlf: bool, final_term: bool, rou
             }
             if kind == "LineLender<File>" {
                 std::fs::write(&path, &bytes).unwrap();
+            } else if kind == "ZstdLineLender<File>" {
+                std::fs::write(&path, &zst).unwrap();
+            } else if kind == "GzipLineLender<File>" {
+                std::fs::write(&path, &gzd).unwrap();
             }
+            let mut hi = 0usize;
             let exp: Vec<String> = match take {
                 Some(t) => expected[..t.min(n)].to_vec(),
                 None => expected.clone(),
             };
             for h in histories(exp.len(), rounds) {
                 ctx.sub_evaluations += 1;
+                hi += 1;
+                let by_file = hi % 2 == 0; // file-backed lenders: opened by path and from an open File in turn
                 let r = guard(|| -> Result<(), (String, String)> {
                     macro_rules! go {
                         ($l:expr) => {{
@@ -163,7 +170,12 @@ fn text_cases(ctx: &mut Ctx, lines: &[String], crlf: bool, final_term: bool, rou
                     }
                     match kind {
                         "LineLender<Cursor>" => go!(LineLender::new(BufReader::new(Cursor::new(bytes.clone())))),
+                        "LineLender<File>" if by_file => go!(LineLender::from_file(std::fs::File::open(&path).unwrap())),
                         "LineLender<File>" => go!(LineLender::from_path(&path).unwrap()),
+                        "ZstdLineLender<File>" if by_file => go!(ZstdLineLender::from_file(std::fs::File::open(&path).unwrap()).unwrap()),
+                        "ZstdLineLender<File>" => go!(ZstdLineLender::from_path(&path).unwrap()),
+                        "GzipLineLender<File>" if by_file => go!(GzipLineLender::from_file(std::fs::File::open(&path).unwrap()).unwrap()),
+                        "GzipLineLender<File>" => go!(GzipLineLender::from_path(&path).unwrap()),
                         "ZstdLineLender" => go!(ZstdLineLender::new(Cursor::new(zst.clone())).unwrap()),
                         _ => go!(GzipLineLender::new(Cursor::new(gzd.clone())).unwrap()),
                     }
